@@ -17,11 +17,20 @@ def run_family(ck, prop, sub=None):
     rows = syn.QUICK_ROWS if tier == "quick" else syn.all_rows()
     if sub is None:
         sub = (prop == "C01")
-    if sub and tier == "quick":
-        # printing every sub-node on its own is the expensive part: quick does it for two layouts
-        res = syn.run_synprint(ck, vecs, rows, layouts[:2], sub=True) + syn.run_synprint(ck, vecs, rows, layouts[2:], sub=False)
+    if tier == "quick":
+        # printing every sub-node on its own is the expensive part: it is done for two layouts
+        if sub:
+            res = syn.run_synprint(ck, vecs, rows, layouts[:2], sub=True) + syn.run_synprint(ck, vecs, rows, layouts[2:], sub=False)
+        else:
+            res = syn.run_synprint(ck, vecs, rows, layouts, sub=False)
     else:
-        res = syn.run_synprint(ck, vecs, rows, layouts, sub=sub)
+        # thorough: every derivation with the covering option rows; the derivations of the quick bound (at most two
+        # non-default choices) additionally with all 128 option combinations
+        small = [v for v in vecs if len(v["ch"]) <= 2]
+        res = syn.run_synprint(ck, vecs, syn.QUICK_ROWS, layouts[:2], sub=sub) + \
+            syn.run_synprint(ck, vecs, syn.QUICK_ROWS, layouts[2:], sub=False) + \
+            syn.run_synprint(ck, small, [r for r in rows if r not in syn.QUICK_ROWS], layouts, sub=False)
+        ck.notes["all_option_rows_on"] = len(small)
     inst = collections.defaultdict(lambda: {"langs": set(), "rec": None})
     conf = collections.Counter()
     nontrivial = set()
